@@ -10,6 +10,7 @@ import (
 
 	"github.com/youzan/ZanRedisDB/common"
 	"zmc/ev"
+	"zmc/servermc"
 	"zmc/storemc"
 )
 
@@ -304,6 +305,18 @@ func runC19(tier string) int {
 	col.Set("rule", "state = (store dump, synced positions, receiver log tail since the last snapshot, snapshot image); transitions = deliver source entry i of cluster A or B for every i <= position+1 (stale re-sends, duplicates), overlapping batches [i..j] in one apply batch, one 'middle proposal dropped' delivery of position+2, snapshot (store dump + serialised positions as KVNode.GetSnapshot stores them), restart (restore the image, replay the own log tail with isReplaying=true); each delivery goes through the real KVNode.applyEntry; oracle: data = source prefix applied once each in order and equal to the synced index, position monotone, restart reproduces data and position")
 	col.Sample(map[string]interface{}{"source_log": "5 entries per source cluster, each APPEND <entry number> to one key, one term change, strictly increasing timestamps", "path": []string{"deliver A#1", "deliver A#1", "deliver-batch A#1..3", "snapshot", "deliver A#4", "restart"}})
 	col.Assume = []string{"apply seam: the receive-time filter and raft proposal of Server.ApplyRaftReqs are not on this path", "source timestamps strictly increase (equal timestamps are handled by the documented conflict check)"}
+	// the receive side: Server.ApplyRaftReqs on a live single-node server
+	servermc.Silence()
+	if srv, err := servermc.StartWith(servermc.Opts{Port: servermc.FreeBase(), Parts: 1}); err != nil {
+		fmt.Println("INFRA: cannot start the receiving server:", err)
+		col.Finish()
+		return 2
+	} else {
+		seqs, calls := servermc.RunSyncReceive(col, srv)
+		srv.Stop()
+		fmt.Printf("[C19] receive side (Server.ApplyRaftReqs): delivery sequences=%d calls=%d\n", seqs, calls)
+		col.Set("receive_side", map[string]interface{}{"delivery_sequences": seqs, "rpc_calls": calls})
+	}
 	return col.Finish()
 }
 
